@@ -579,19 +579,29 @@ func ruleFeeCeiling(c *report.Ctx) {
 		if !ok {
 			continue
 		}
-		a := p.MkAtom(ifi.Cond, true, ifi)
-		call, isCall := a.X.(*ssa.Call)
-		if a.Op != token.LSS || !isCall || call.Call.StaticCallee() != amtCmp {
-			continue
+		// the successor on which max.Cmp(fee) < 0 holds (the test may be written either way round)
+		over := -1
+		for i := range b.Succs {
+			a := p.MkAtom(ifi.Cond, i == 0, ifi)
+			call, isCall := a.X.(*ssa.Call)
+			if a.Op != token.LSS || !isCall || call.Call.StaticCallee() != amtCmp {
+				continue
+			}
+			if k, isK := constInt(a.Y); !isK || k != 0 {
+				continue
+			}
+			if _, isPar := call.Call.Args[1].(*ssa.Parameter); isPar {
+				over = i
+			}
 		}
-		if _, isPar := call.Call.Args[1].(*ssa.Parameter); !isPar {
+		if over < 0 {
 			continue
 		}
 		found = true
 		s := &an.Search{P: p, Fn: check, GoalReturn: func(r *ssa.Return, pred *ssa.BasicBlock) bool {
 			return p.ClassifyReturn(r, pred) != an.RetError
 		}}
-		if w := s.Run(b.Succs[0], 0, b); w != nil {
+		if w := s.Run(b.Succs[over], 0, b); w != nil {
 			c.Fail(sk(check)+":max<fee=>error", "the over-limit branch of checkTxFeeLimit can return success", posOf(c, ifi), w...)
 		} else {
 			c.OK(sk(check)+":max<fee=>error", "max.Cmp(fee) < 0 reaches only error returns", posOf(c, ifi))
